@@ -107,6 +107,21 @@ def perturb(c):
                 counter[0] += 1
                 return na if k == i else x
             out.append(rebuild(c, [0]))
+    # one slash replaced by each of the two others (a variable shared by the patterns must stand for parts with the very same slashes)
+    nslash = len(K.slashes(c))
+    for i in range(nslash):
+        for alt in '/\\|':
+            def reslash(x, counter):
+                if isinstance(x, K.Functor):
+                    l = reslash(x.left, counter)
+                    k = counter[0]
+                    counter[0] += 1
+                    r = reslash(x.right, counter)
+                    return K.Functor(l, alt if k == i else x.slash, r)
+                return x
+            v = reslash(c, [0])
+            if K.key(v) != K.key(c):
+                out.append(v)
     return out
 
 
